@@ -125,6 +125,7 @@ def check(seed, n):
                     exc = type(e).__name__ + ": " + str(e)[:100]
                 cap.take()
             evals += 1
+            proto.sample("includes", case)
             seen.add(repr(sorted(case["files"].items())))
             if exc:
                 violations.append({"property": "C16", "stream": "includes", "sig": "include:exception", "case": case,
@@ -159,3 +160,65 @@ def check(seed, n):
     finally:
         shutil.rmtree(root, ignore_errors=True)
     return {"evaluations": evals, "violations": violations, "disagreements": [], "distinct": len(seen)}
+
+
+def flatten_files(path, stack=()):
+    """textual splicing computed from the files themselves: [(operation text without blanks, file, line)]"""
+    import re
+    out = []
+    with open(path) as f:
+        lines = f.read().split("\n")
+    for i, l in enumerate(lines, start=1):
+        t = l.split("//")[0].strip()
+        if not t:
+            continue
+        m = re.match(r'^#include\s+"(.*)"$', t)
+        if m:
+            child = os.path.normpath(os.path.join(os.path.dirname(path), m.group(1)))
+            if child in stack or child == path:
+                raise RecursionError("cycle")
+            out += flatten_files(child, stack + (path,))
+        else:
+            out.append((t.replace(" ", ""), os.path.normpath(path), i))
+    return out
+
+
+def replay_case(case):
+    """Re-run one recorded include graph against the real parser."""
+    import hera.parser as P
+    import hera.utils as U
+    root = tempfile.mkdtemp(prefix="hera_verif_inc_")
+    try:
+        first = None
+        for relp, text in case["files"].items():
+            p = os.path.join(root, relp)
+            os.makedirs(os.path.dirname(p), exist_ok=True)
+            with open(p, "w") as f:
+                f.write(text)
+            first = first or p
+        st = progrun.make_settings()
+        with proto.Capture() as cap:
+            try:
+                ops, msgs = P.parse(U.read_file(first), path=U.Path(first), settings=st)
+            except RecursionError:
+                cap.take()
+                return "RecursionError (include cycle not stopped)"
+            except Exception as e:  # noqa
+                cap.take()
+                return "parsing an include graph raised " + type(e).__name__
+            cap.take()
+        errs = [m for m, loc in msgs.errors]
+        if case.get("cyclic"):
+            return None if any("recursive include" in m for m in errs) else "an include cycle was not reported as an error"
+        if any("recursive include" in m for m in errs):
+            return "an acyclic include graph is reported as a recursive include"
+        try:
+            want = flatten_files(first)
+        except (RecursionError, OSError):
+            return None
+        got = [(str(o).replace(" ", ""), os.path.normpath(str(o.loc.path)), o.loc.line) for o in ops]
+        if got != want:
+            return "operations (text, file, line) differ from textual splicing: got {} ... expected {} ...".format(got[:3], want[:3])
+        return None
+    finally:
+        shutil.rmtree(root, ignore_errors=True)
